@@ -138,3 +138,11 @@ Theorem C13_parser_line_numbers_irrelevant : forall f l tokens,
   parse_item (f l) tokens = ParseRelabel.ffres f (fitem f) (parse_item l tokens).
 Proof. exact ParseRelabel.parse_item_relabel. Qed.
 Print Assumptions C13_parser_line_numbers_irrelevant.
+
+(* ---- the model is a FUNCTION of the program and the options, and so is the code it models: the effect summary regenerated from asm.py
+   passes summary_ok (no module-level object written by anything reachable from assemble(), no mutable default, no set iteration order
+   consumed; Proofs/Effects.v noninterference) -- a memo table or cache that outlives a call makes a pure model unfaithful *)
+From BB Require Gen.Effects Proofs.Effects Proofs.EffectsOk.
+Theorem C13_assemble_is_a_function_of_its_inputs : Proofs.Effects.summary_ok Gen.Effects.summary = true.
+Proof. exact Proofs.EffectsOk.summary_ok_holds. Qed.
+Print Assumptions C13_assemble_is_a_function_of_its_inputs.
